@@ -100,7 +100,8 @@ def run_handlers(pid, tier, seed):
     r1.append(c)
     for mod, cfg, neg in [("MC_HandlerRange.tla", "MC_HandlerRange_fixed.cfg", None),
                           ("MC_HandlerRange.tla", "MC_HandlerRange_wrapping.cfg", "InRange"),
-                          ("MC_HandlersImpl.tla", "MC_HandlersImpl_thorough.cfg" if tier == "thorough" else "MC_HandlersImpl.cfg", None)]:
+                          ("MC_HandlersImpl.tla", "MC_HandlersImpl_thorough.cfg" if tier == "thorough" else "MC_HandlersImpl.cfg", None),
+                          ("MC_HandlersImpl.tla", "MC_HandlersImpl_depth.cfg", None)]:
         if os.path.exists(os.path.join(vlib.SPEC, cfg)):
             r1.append(vlib.model_check(mod, cfg, expect_violation=neg))
     walks, nwalks = spec_walks(tier, seed)
@@ -440,7 +441,10 @@ HANDLERS_RULE = ("traversals = (state bases and transition bases of the TLA+ gra
                  "members x completion / reject continuations) x handler strategies (all-0, all-exact, mixes), plus random/corpus/walk "
                  "documents x (random well-behaved mixes; an error at every call position with every kind of accompanying offset; "
                  "hostile answers near the integer limits; every offset from the start of the document to beyond the member at every "
-                 "call position, once and repeated); distinct = distinct (document, script); non-trivial = at least one handler call")
+                 "call position, once and repeated), plus containers nested 6200 / 8200 / 10000 deep in three array/object mixtures x "
+                 "(all-0, all-exact) x (no Buffer, a new one, Buffers left behind by Valid / SkipValue / SkipValueFast / a traversal "
+                 "after an array nested 1, 2, 3, 64, 625, 5000 deep); distinct = distinct (document, script); non-trivial = at least "
+                 "one handler call")
 CHECKS.update({
     "C07": {"family": "handlers", "level": "model_checking", "rule": HANDLERS_RULE,
             "technique": "TLA+ member-table spec (grammar) + protocol model; recorded handler call logs validated by TLC (R3)",
@@ -577,7 +581,7 @@ CHECKS.update({
 
 CHECKS.update({
     "C14": {"family": "hist", "level": "model_checking",
-            "rule": "all ordered pairs of (document at / around / beyond the depth limit, function) steps on one Buffer, and histories of 2..6 calls on one Buffer over Valid, SkipValue, SkipValueFast, HandleArrayValues, HandleObjectValues x a document "
+            "rule": "all ordered pairs of steps on one Buffer - first (document nested 1, 2, 3, 5, 64, 625, 1000, 5000, 6000 deep or at / around / beyond the depth limit, function), then (document deep but legal or at / around / beyond the limit, function) -, and histories of 2..6 calls on one Buffer over Valid, SkipValue, SkipValueFast, HandleArrayValues, HandleObjectValues x a document "
                     "alphabet with one representative per outcome class (shallow/deep ok, syntax error at depth, depth-limit error, truncated deep "
                     "nests, 10000/10001 nests, random containers and mutations) x 7 handler behaviours (return 0; exact offset via SkipValue / "
                     "SkipValueFast on the enclosing buffer; abort with an error at call k; recursive nested traversals sharing the buffer; Valid on "
